@@ -623,6 +623,10 @@ namespace vh
     }
     micm::LinearSolver<SM, LU, SML, SMU> ls(A, garbage);
     auto lu = LU::template GetLUMatrices<SM, SML, SMU>(A, garbage);
+    // arbitrary prior contents: every storage slot (diagonal, fill-in, padding lanes) is overwritten AFTER creation,
+    // so nothing the factory wrote can be relied upon by Decompose
+    for (auto& v : lu.first.AsVector()) v = garbage;
+    for (auto& v : lu.second.AsVector()) v = garbage;
     ls.Factor(A, lu.first, lu.second);
     DM x = denseFrom<DM>(blocks, n, b);
     ls.template Solve<DM>(x, lu.first, lu.second);
@@ -1552,6 +1556,10 @@ namespace vh
     }
     micm::LinearSolver<SM, LU> ls(A, garbage);
     auto lu = LU::template GetLUMatrices<SM, SM, SM>(A, garbage);
+    // arbitrary prior contents: every storage slot (diagonal, fill-in, padding lanes) is overwritten AFTER creation,
+    // so nothing the factory wrote can be relied upon by Decompose
+    for (auto& v : lu.first.AsVector()) v = garbage;
+    for (auto& v : lu.second.AsVector()) v = garbage;
     ls.Factor(A, lu.first, lu.second);
     DM x = denseFrom<DM>(blocks, n, b);
     ls.template Solve<DM>(x, lu.first, lu.second);
